@@ -2,36 +2,19 @@
 //! publish queue, publish loop) with a capturing MQTT client and reports
 //! what the client was handed: topic, QoS, and the payload parsed back to
 //! (ingress info, record). Case grammar: oracle/eng_c17file.ml.
-use super::c17file::{ip_index, ip_of, name_of, record_tok, text_of, text_tok, update_of, Ings};
+use super::c17file::{info_of, ip_index, ip_of, name_of, record_tok, text_of, text_tok, update_of, Ings};
 use crate::util::{ops, opt_tok};
 use rotonda::comms::Gate;
-use rotonda::ingress::IngressInfo;
-use rotonda::manager::{Component, Coordinator, TargetCommand};
+use rotonda::manager::{Component, Coordinator, TargetCommand, UpstreamLinkReport};
 use rotonda::payload::Update;
 use rotonda::roto_runtime::types::OutputStreamMessage;
 use rotonda::verif::targets::mqtt::{self, Published};
 use rotonda::verif::targets::smallvec::smallvec;
-use routecore::bmp::message::RibType;
 use serde_json::Value;
 use std::sync::atomic::{AtomicU64, Ordering};
 
 const SENTINEL_ASN: u32 = 4_294_967_294;
 const PROBE_ASN: u32 = 4_294_967_293;
-
-fn info_of(f: &[&str]) -> IngressInfo {
-    assert!(f.len() == 8, "ing: 8 fields expected");
-    let n = |t: &str| t.parse::<u32>().unwrap();
-    let mut i = IngressInfo::new();
-    i.unit_name = opt_tok(f[0], |t| format!("s{t}"));
-    i.parent_ingress = opt_tok(f[1], n);
-    i.remote_addr = opt_tok(f[2], |t| ip_of(n(t)));
-    i.remote_asn = opt_tok(f[3], |t| inetnum::asn::Asn::from_u32(n(t)));
-    i.rib_type = opt_tok(f[4], |t| match n(t) % 3 { 0 => RibType::AdjRibIn, 1 => RibType::AdjRibOut, _ => RibType::LocRib });
-    i.filename = opt_tok(f[5], |t| std::path::PathBuf::from(format!("s{t}")));
-    i.name = opt_tok(f[6], |t| format!("s{t}"));
-    i.desc = opt_tok(f[7], |t| format!("s{t}"));
-    i
-}
 
 /// JSON of an IngressInfo -> `I<f1>,..,<f8>`
 fn info_tok(v: &Value) -> Option<String> {
@@ -113,10 +96,35 @@ pub fn run_case(line: &str) -> String {
         for op in &all {
             match op[0] {
                 "name" | "tpl" | "qos" | "fmt" | "end" | "early" => {}
+                // the ingress units' side of the shared register, between the target's messages
                 "ing" => {
                     let id = ings.reg.verif_register();
                     ings.reg.verif_update_info(id, info_of(&op[1..]));
                     ings.ids.push(id);
+                }
+                "reg" => { let id = ings.reg.verif_register(); ings.ids.push(id); }
+                "G" => {
+                    let id = ings.resolve(op[1]).expect("G: ingress expected");
+                    ings.reg.verif_update_info(id, info_of(&op[2..]));
+                }
+                "R" => {
+                    // at a quiet moment: everything emitted so far has been published
+                    if !early { probe(&gate, &name, &sink).await; }
+                    let cmd = mqtt::reconfigure_command(&client_id, &text_of(op[1]), op[2].parse().unwrap(), agent.create_link());
+                    cmd_tx.send(cmd).await.ok();
+                    // commands are handled one after the other: once the report is filled in, the
+                    // reconfiguration (incl. connecting the new link, which needs the gate) is complete
+                    let report = UpstreamLinkReport::new();
+                    cmd_tx.send(TargetCommand::ReportLinks { report: report.clone() }).await.ok();
+                    let _ = gate.process_until(async {
+                        for round in 0..6000u32 {
+                            if report.ready() { break; }
+                            if round < 2000 { tokio::task::yield_now().await } else { tokio::time::sleep(std::time::Duration::from_millis(1)).await }
+                        }
+                        // the old link unsubscribes from a task spawned by its Drop
+                        for _ in 0..50 { tokio::task::yield_now().await; }
+                    }).await;
+                    assert!(report.ready(), "reconfigure not handled");
                 }
                 _ => match update_of(op, &ings) {
                     Some(u) => gate.update_data(u).await,
